@@ -339,6 +339,15 @@ class LiteralMethod(DeserializationMethod):
         try:
             return self.value_map[data.__class__, data]
         except KeyError:
+            # data can be an instance of a subclass of a literal class, e.g. the member
+            # of a str/int mixin Enum, as returned by serialization
+            for cls in self.types:
+                if (
+                    isinstance(data, cls)
+                    and (cls is bool or not isinstance(data, bool))
+                    and (cls, data) in self.value_map
+                ):
+                    return self.value_map[cls, data]
             if self.coercer is not None:
                 for cls in self.types:
                     try:
